@@ -111,3 +111,20 @@ Theorem repeat_advances_refuted :
   <> f_compute_old (list nat) [] log_step 1 3 (f_fresh _ []).
 Proof. vm_compute. discriminate. Qed.
 Print Assumptions repeat_advances_refuted.
+
+(* (9) the initial record belongs to initialize(), not to compute(): a driver that records the initial state in every
+   compute() call that starts at the first step (a seeded change made to PtTebd) agrees with the code for every
+   single call -- which is all the existing tests make -- and records the initial state twice as soon as a call that
+   takes no step is followed by another one: split_eq_single fails for it *)
+Theorem lazy_initial_record_single_call :
+  forall (Net : Type) (net_init : Net) (net_step : Net -> nat -> Net) t,
+    compute_lazy Net net_init net_step t (fresh Net net_init) = compute Net net_init net_step t (fresh Net net_init).
+Proof. intros. reflexivity. Qed.
+Print Assumptions lazy_initial_record_single_call.
+
+Theorem lazy_initial_record_refuted :
+  exists (Net : Type) (net_init : Net) (net_step : Net -> nat -> Net),
+    map fst (dyn Net (compute_lazy Net net_init net_step 2 (compute_lazy Net net_init net_step 0 (fresh Net net_init))))
+    <> map fst (dyn Net (compute Net net_init net_step 2 (fresh Net net_init))).
+Proof. exists unit, tt, (fun _ _ => tt). vm_compute. discriminate. Qed.
+Print Assumptions lazy_initial_record_refuted.
